@@ -3,7 +3,10 @@ package main
 // Path exploration with required edges: "every path from A to T takes edge e1 and e2 …".
 
 import (
+	"fmt"
 	"go/token"
+	"sort"
+	"strings"
 	"go/types"
 
 	"golang.org/x/tools/go/ssa"
@@ -26,20 +29,105 @@ func pathsMissing(start ssa.Instruction, startEdge int, isTarget, avoid func(ssa
 	return pathsMissingX(start, startEdge, isTarget, avoid, reqs, nil)
 }
 
-// pathsMissingX: as pathsMissing, with edges declared infeasible by the caller (cond, polarity) pruned.
+// pathsMissingX: as pathsMissing, with edges declared infeasible by the caller (cond, polarity) pruned. The explorer
+// also tracks, per path, which constant a phi received from the edge it was entered by, and prunes branches whose
+// condition compares such a phi with a constant (e.g. `l := -1; if … { l = parsed }; if l < 0 {…}`).
 func pathsMissingX(start ssa.Instruction, startEdge int, isTarget, avoid func(ssa.Instruction) bool, reqs []edgeReq, infeasible func(cond ssa.Value, pol bool) bool) (missing []string, reached int) {
 	type st struct {
 		b    *ssa.BasicBlock
 		mask int
+		cs   string
 	}
 	seen := map[st]bool{}
 	miss := map[string]bool{}
 	full := 1<<len(reqs) - 1
-	var walk func(b *ssa.BasicBlock, idx, mask int)
-	step := func(from *ssa.BasicBlock, iff *ssa.If, si int, mask int) {
+	type consts map[*ssa.Phi]int64
+	keyOf := func(c consts) string {
+		if len(c) == 0 {
+			return ""
+		}
+		var parts []string
+		for k, v := range c {
+			parts = append(parts, fmt.Sprintf("%s=%d", k.Name(), v))
+		}
+		sort.Strings(parts)
+		return strings.Join(parts, ",")
+	}
+	enter := func(from, to *ssa.BasicBlock, c consts) consts {
+		var out consts
+		idx := -1
+		for i, p := range to.Preds {
+			if p == from {
+				idx = i
+			}
+		}
+		for _, in := range to.Instrs {
+			ph, ok := in.(*ssa.Phi)
+			if !ok {
+				break
+			}
+			if out == nil {
+				out = consts{}
+				for k, v := range c {
+					out[k] = v
+				}
+			}
+			delete(out, ph)
+			if idx >= 0 && idx < len(ph.Edges) {
+				if k, okk := constInt(ph.Edges[idx]); okk {
+					if _, isC := ph.Edges[idx].(*ssa.Const); isC {
+						out[ph] = k
+					}
+				} else if p2, isP := ph.Edges[idx].(*ssa.Phi); isP {
+					if v, has := c[p2]; has {
+						out[ph] = v
+					}
+				}
+			}
+		}
+		if out == nil {
+			return c
+		}
+		return out
+	}
+	evalCond := func(cond ssa.Value, c consts) (bool, bool) { // (value, known)
+		bo, ok := cond.(*ssa.BinOp)
+		if !ok {
+			return false, false
+		}
+		ph, ok := stripIntConv(bo.X).(*ssa.Phi)
+		if !ok {
+			return false, false
+		}
+		v, has := c[ph]
+		k, okk := constInt(bo.Y)
+		if !has || !okk {
+			return false, false
+		}
+		switch bo.Op {
+		case token.LSS:
+			return v < k, true
+		case token.LEQ:
+			return v <= k, true
+		case token.GTR:
+			return v > k, true
+		case token.GEQ:
+			return v >= k, true
+		case token.EQL:
+			return v == k, true
+		case token.NEQ:
+			return v != k, true
+		}
+		return false, false
+	}
+	var walk func(b *ssa.BasicBlock, idx, mask int, c consts)
+	step := func(from *ssa.BasicBlock, iff *ssa.If, si int, mask int, c consts) {
 		g := Guard{Cond: iff.Cond, Pol: true}.norm()
 		pol := (si == 0) == g.Pol
 		if infeasible != nil && infeasible(g.Cond, pol) {
+			return
+		}
+		if v, known := evalCond(g.Cond, c); known && v != pol {
 			return
 		}
 		m := mask
@@ -54,13 +142,14 @@ func pathsMissingX(start ssa.Instruction, startEdge int, isTarget, avoid func(ss
 				m |= 1 << k
 			}
 		}
-		s := st{from.Succs[si], m}
+		nc := enter(from, from.Succs[si], c)
+		s := st{from.Succs[si], m, keyOf(nc)}
 		if !seen[s] {
 			seen[s] = true
-			walk(from.Succs[si], 0, m)
+			walk(from.Succs[si], 0, m, nc)
 		}
 	}
-	walk = func(b *ssa.BasicBlock, idx, mask int) {
+	walk = func(b *ssa.BasicBlock, idx, mask int, c consts) {
 		for i := idx; i < len(b.Instrs); i++ {
 			in := b.Instrs[i]
 			if isTarget(in) {
@@ -82,26 +171,27 @@ func pathsMissingX(start ssa.Instruction, startEdge int, isTarget, avoid func(ss
 				return
 			case *ssa.If:
 				for si := range b.Succs {
-					step(b, t, si, mask)
+					step(b, t, si, mask, c)
 				}
 				return
 			}
 		}
 		for _, succ := range b.Succs {
-			s := st{succ, mask}
+			nc := enter(b, succ, c)
+			s := st{succ, mask, keyOf(nc)}
 			if !seen[s] {
 				seen[s] = true
-				walk(succ, 0, mask)
+				walk(succ, 0, mask, nc)
 			}
 		}
 	}
 	if startEdge >= 0 {
 		b := start.Block()
 		if iff, ok := b.Instrs[len(b.Instrs)-1].(*ssa.If); ok {
-			step(b, iff, startEdge, 0)
+			step(b, iff, startEdge, 0, nil)
 		}
 	} else {
-		walk(start.Block(), instrIndex(start)+1, 0)
+		walk(start.Block(), instrIndex(start)+1, 0, nil)
 	}
 	for k := range miss {
 		missing = append(missing, k)
